@@ -146,9 +146,60 @@ def _tabs(ctx):
     ctx.unit("tabs", strings=len(strs), cases=len(jobs))
 
 
+HEADING_RULES = ("MD001", "MD003", "MD022", "MD024", "MD025", "MD041")    # rules that report at a heading token, without a column of their own
+
+
+def _report_positions(doc):
+    """-> (reports of the heading rules [(line, col, rule)], positions carried by tokens {(line, col)}) | None"""
+    st, toks = impl.parse(doc)
+    if st != "ok":
+        return None
+    from pymarkdown.api import PyMarkdownApi, PyMarkdownApiException
+    try:
+        r = PyMarkdownApi().scan_string(doc)
+    except PyMarkdownApiException:
+        return None
+    pos = set()
+    for t in toks:
+        if t.line_number > 0:
+            pos.add((t.line_number, t.column_number))
+        if t.is_setext_heading:
+            pos.add((t.original_line_number, t.original_column_number))
+    return [(f.line_number, f.column_number, f.rule_id.upper()) for f in r.scan_failures if f.rule_id.upper() in HEADING_RULES], sorted(pos)
+
+
+def _reports(ctx):
+    """every file:line:column a user sees is copied from the numbers of a token: headings of both styles at every small indentation of
+    text and underline, in quotes and list items, arranged so that the heading rules fire on them"""
+    import itertools
+    docs = []
+    for pre, cont in (("", ""), ("> ", "> "), ("- ", "  "), ("1. ", "   ")):
+        for ti, ui in itertools.product(range(4), repeat=2):
+            h = f"{pre}{' ' * ti}Same\n{cont}{' ' * ui}----\n"
+            h2 = f"{cont}{' ' * ti}Same\n{cont}{' ' * ui}====\n"
+            docs += [f"# t\n\n{h}{cont}\n{h.replace(pre, cont, 1) if pre else h}", f"{h}{cont}text\n{h2}", f"{pre}text\n{h2}{cont}\n{cont}{' ' * ti}### x\n"]
+        for ti in range(4):
+            docs += [f"{pre}{' ' * ti}# a\n{cont}\n{cont}{' ' * ti}### b\n{cont}{' ' * ti}# a\n", f"{pre}text\n{cont}{' ' * ti}## a #\n{cont}text\n"]
+    docs = list(dict.fromkeys(docs))
+    for d, r in zip(docs, impl.pmap(_report_positions, docs, chunksize=16)):
+        ctx.count(1, "report-positions")
+        if r is None:
+            continue
+        reps, pos = r
+        if reps:
+            ctx.seen(["reports", d])
+        pos = {tuple(p) for p in pos}
+        for (l, c, rid) in reps:
+            if (l, c) not in pos:
+                near = sorted(p for p in pos if p[0] == l)
+                ctx.violation("report-position", {"doc": d, "rule": rid}, f"{rid} is reported at {l}:{c}; no token carries that position (tokens on that line: {near})", group="report-position-" + rid)
+    ctx.unit("report-positions", documents=len(docs))
+
+
 def run(ctx):
     ctx.prove("Props/C05.v", ["Model/Pos.v", "Proofs/PosProofs.v", "Model/Tabs.v", "Proofs/TabsProofs.v", "Extract/Extract.v"])
     _tabs(ctx)
+    _reports(ctx)
     sp = c04.spaces(ctx)
     sp.pop("emphasis-runs(7)", None)
     mi = list(gen.uniq(list(multi_inline()) + list(hard_break_then_multiline())))
